@@ -292,6 +292,8 @@ type Peer struct {
 	CC      shim.Chaincode
 	ACL     *ACL
 	Clock   int64 // seconds, harness-controlled
+	// Transient is the transient map every proposal carries (trace context of the client), if any.
+	Transient map[string][]byte
 }
 
 // Result is the outcome of one simulated (and possibly committed) proposal.
@@ -309,7 +311,7 @@ func (p *Peer) newStub(creator []byte, txid string, args [][]byte) *Stub {
 		L: p.L, TxID: txid, Channel: p.Channel, Args: args, Creator: creator,
 		SP:      BuildSignedProposal(p.CCName, args),
 		TS:      &timestamp.Timestamp{Seconds: p.Clock},
-		Invoker: p.ACL.Invoker(),
+		Invoker: p.ACL.Invoker(), Transient: p.Transient,
 	}
 }
 
